@@ -1,3 +1,80 @@
 // in-place Kani harnesses for src/state.rs (child module: sees private items via super::*)
 #![allow(unused_imports, dead_code)]
 use super::*;
+
+fn mk_state(pos: u64, len: Option<u64>, status: Status) -> ProgressState {
+    let ap = Arc::new(AtomicPosition {
+        pos: AtomicU64::new(pos),
+        capacity: AtomicU8::new(0),
+        prev: AtomicU64::new(0),
+        start: unsafe { std::mem::zeroed() },
+    });
+    ProgressState {
+        pos: ap,
+        len,
+        tick: 0,
+        started: unsafe { std::mem::zeroed() },
+        status,
+        est: Estimator::new(unsafe { std::mem::zeroed() }),
+        message: TabExpandedString::NoTabs("".into()),
+        prefix: TabExpandedString::NoTabs("".into()),
+    }
+}
+
+/// C07 (and C13): the completed fraction, for ALL u64 positions and ALL Option<u64> lengths.
+/// Loop-free, full domain: a complete proof, not a bounded stand-in.
+#[kani::proof]
+fn c07_fraction_full_domain() {
+    let pos: u64 = kani::any();
+    let len: Option<u64> = kani::any();
+    let st = mk_state(pos, len, Status::InProgress);
+    let f = st.fraction();
+    assert!(f >= 0.0 && f <= 1.0, "fraction within [0,1]");
+    if len == Some(0) {
+        assert!(f == 1.0, "zero length is complete");
+    }
+    if len.is_none() {
+        assert!(f == 0.0, "unknown length is 0");
+    }
+    if let Some(l) = len {
+        if l > 0 && pos >= l {
+            assert!(f == 1.0, "pos >= len is complete");
+        }
+        if l > 0 && pos == 0 {
+            assert!(f == 0.0, "position 0 is empty");
+        }
+    }
+    kani::cover!(len.is_some() && pos > 0 && f > 0.0 && f < 1.0, "cover: strictly inside");
+}
+
+/// Same claims on a narrowed domain (bounded stand-in for the quick tier).
+#[kani::proof]
+fn c07_fraction_u24() {
+    let pos: u64 = kani::any();
+    let len: Option<u64> = kani::any();
+    kani::assume(pos <= 1 << 24);
+    if let Some(l) = len {
+        kani::assume(l <= 1 << 24);
+    }
+    let st = mk_state(pos, len, Status::InProgress);
+    let f = st.fraction();
+    assert!(f >= 0.0 && f <= 1.0, "fraction within [0,1]");
+    if len == Some(0) {
+        assert!(f == 1.0, "zero length is complete");
+    }
+    if len.is_none() {
+        assert!(f == 0.0, "unknown length is 0");
+    }
+    if let Some(l) = len {
+        if l > 0 && pos >= l {
+            assert!(f == 1.0, "pos >= len is complete");
+        }
+        if l > 0 && pos < l {
+            assert!(f < 1.0, "for lengths up to 2^24 the fraction is 1 only when complete");
+        }
+        if l > 0 && pos == 0 {
+            assert!(f == 0.0, "position 0 is empty");
+        }
+    }
+    kani::cover!(len.is_some() && pos > 0 && f > 0.0 && f < 1.0, "cover: strictly inside");
+}
